@@ -77,6 +77,10 @@ def run(ctx):
         else:
             ctx.bad('FLOW-C42b', fn, 'the payload written for a frame is not the payload read for that frame id', line=w.line, detail='payload-identity')
         act = lib.holds_variant_at(fn, w.bb, 'Frame', 'status', 'FrameStatus', 'Active')
+        if not act and getc and all(lib.holds_variant_at(fn, g.bb, 'Frame', 'status', 'FrameStatus', 'Active') for g in getc):
+            # `let retained = match status { Active => map.get(id), _ => None }; let Some(bytes) = retained else {..}`: the bytes written
+            # can only be the ones looked up on the Active arm (data dependence instead of control dominance)
+            act = True
         if act:
             ctx.ok('FLOW-C42b', fn, 'payload rewritten only on the status == Active edge', line=w.line)
         else:
